@@ -361,3 +361,20 @@ package dnsserver
 //@   requires SD(s) && conn != nil && wg != nil && writeMu != nil
 //@   requires own-bytes-only: off(buf) + len(buf) <= stamped[arr(buf)]
 //@   modifies heap, served, servedReq, servedRW, servedErr, writes, wroteReq, wroteResp, wroteId, wroteRcode, wroteNQ, wroteQ, truncSize, disposed
+
+// DoQ: the stream is read into a pooled 64 KiB buffer; only the n bytes read
+// now may be decoded.
+
+//@ func readAll
+//@   property C06
+//@   requires r != nil && stamped[arr(buf)] == off(buf)
+//@   modifies elems(buf), stamped[arr(buf)]
+//@   ensures 0 <= n && n <= len(buf) && stamped[arr(buf)] == off(buf) + n
+//@   loop 1 invariant 0 <= n && n <= len(buf) && stamped[arr(buf)] == off(buf) + n
+
+//@ func (*ServerQUIC).readQUICMsg
+//@   property C06
+//@   requires s.ServerBase != nil && s.ServerBase.metrics != nil && s.reqPool != nil && stream != nil
+//@   requires poolCap(s.reqPool) >= 65535
+//@   modifies stamped, allelems(byte)
+//@   ensures err == nil ==> m != nil
